@@ -10,7 +10,7 @@
    on disk after the call) is established by the fault-injection runs of
    harness/props/c14.py on the real code, not proved. *)
 From Coq Require Import ZArith List Bool.
-From CTM Require Import Base.Sx Model.Pool Model.RunEffects Proofs.PoolP Proofs.RunEffectsP.
+From CTM Require Import Base.Sx Model.Pool Model.RunEffects Proofs.PoolP Proofs.RunEffectsP Proofs.SelPoolP.
 Import ListNotations.
 
 (* For both inspectors (variant = true: winnow_process_dict, false: winnow_process_list),
@@ -105,6 +105,26 @@ Theorem c14_no_complete_output : forall s specs clean_ok,
 Proof. exact no_complete_output. Qed.
 Print Assumptions c14_no_complete_output.
 
+(* the scheduler of select_all_markers has its own loop (behemoth parents one at a time,
+   parents without leaf pairs completed inline): for every world, bound and partition of
+   the parents, a clean verdict means every parent that was given a process exited with
+   code 0; a raise names a started parent and its non-zero code.
+   NOT PROVED for this loop (c14_selection_scheduler is therefore partial): that the verdict
+   is never PHang, i.e. that the `while ... or not have_chosen_parent` poll cannot spin with
+   nothing running; the virtual-schedule runs observe no hang. *)
+Theorem c14_selection_scheduler_partial : forall (W : world) (n : nat) (behemoths smaller leafless : list nat),
+  let r := run_selection_pool W n behemoths smaller leafless in
+  (fst r = POk -> forall p, In p (ss_started (snd r)) -> mem p leafless = false -> code W p = 0%Z) /\
+  (forall w c, fst r = PRaised w c -> In w (ss_started (snd r)) /\ c = code W w /\ c <> 0%Z).
+Proof. exact selection_pool_verdict. Qed.
+Print Assumptions c14_selection_scheduler_partial.
+
+(* a failed run (model shape) satisfies the clauses of the property itself *)
+Theorem c14_failed_trace_has_property : forall c tr raised,
+  failed_trace_ok c tr raised = true -> prop_trace_ok c tr raised = true.
+Proof. exact failed_implies_prop. Qed.
+Print Assumptions c14_failed_trace_has_property.
+
 (* ---- the hypotheses are satisfiable, the conclusions are not vacuous *)
 (* three workers, two at a time; worker 1 is killed (code -9) and terminates last *)
 Example c14_example_world :
@@ -135,3 +155,11 @@ Example c14_example_stage :
   run_stage_desc stats_stage [POk] = ([SScratch; SPayload; SCleanScratch; SComplete], true) /\
   run_stage_desc_c transpose_stage [pool_result (false, W, 2, 2)%nat] false = ([SScratch], false, ECleanup).
 Proof. vm_compute. repeat split; reflexivity. Qed.
+
+(* parents 0 and 1 are behemoths (one at a time), 2 is small, 3 has no leaf pair; parent 1 is
+   killed: the scheduler reports it *)
+Example c14_example_selection :
+  let W := {| code := fun w => if Nat.eqb w 1 then (-9)%Z else 0%Z; dur := fun _ => 1%nat |} in
+  fst (run_selection_pool W 2 [0; 1] [2; 3] [3])%nat = PRaised 1 (-9) /\
+  fst (run_selection_pool {| code := fun _ => 0%Z; dur := fun _ => 1%nat |} 2 [0; 1] [2; 3] [3])%nat = POk.
+Proof. vm_compute. split; reflexivity. Qed.
